@@ -155,6 +155,18 @@ Section Transport.
     - rewrite upd_g_other in Hs by exact Hne. exact (HW _ _ Hs).
   Qed.
 
+  Lemma refill_inv x s w : w_axis w = x -> Inv s -> Inv (refill eor x s w).
+  Proof.
+    intros Hx [HA HW]. split; [exact HA|].
+    intros u sec Hs. unfold refill in Hs. simpl in Hs.
+    destruct (wire_dec u w) as [->|Hne].
+    - rewrite upd_g_same in Hs.
+      apply mk_secs_in in Hs. destruct Hs as (H1 & H2 & H3 & H4 & H5 & H6).
+      unfold good_sec. simpl. rewrite H2, Hx, H3, Bool.eqb_reflx.
+      split; [exact H1|]. split; [reflexivity|]. split; [reflexivity|]. split; [exact H4|]. split; [exact H5|exact H6].
+    - rewrite upd_g_other in Hs by exact Hne. exact (HW _ _ Hs).
+  Qed.
+
   (** *** copy_wire *)
   Hypothesis Hor : oriented.
   Hypothesis Hlen : len_shared.
@@ -207,7 +219,7 @@ Section Transport.
   Proof.
     intros Hx H. unfold C04_Payload.grade_axis. destruct (chopped4 bs x).
     - apply fold_left_inv_in with (P := Inv); [|exact H]. intros s' w Hw H'.
-      apply fill_inv; [|exact H']. apply (vw4_of_axis x w Hx Hw).
+      apply refill_inv; [|exact H']. apply (vw4_of_axis x w Hx Hw).
     - apply fold_left_inv_in with (P := Inv).
       + intros s' w Hw H'. apply fill_undefined_inv; [|exact H']. apply (vw4_of_axis x w Hx Hw).
       + apply fold_left_inv_in with (P := Inv); [|exact H]. intros s' w Hw H'.
